@@ -160,3 +160,11 @@ func init() {
 		Stub:       srvStub,
 		ProbeNames: []string{"hostile-connection-dropped-by-server", "bystander-worked-throughout", "grammar-Tread", "grammar-Twalk", "grammar-Twstat", "grammar-Tcreate", "grammar-Rread"}})
 }
+
+func init() {
+	reg(&propCfg{ID: "C19", Race: true, QuickRuns: 1200, QuickSecs: 50, ThoroughRuns: 60000, ThoroughSecs: 900, Chunk: 30,
+		RuleNote:   "C19 runs in the race build (only go9p and the standard library are instrumented; scheduler and harness are compiled with -race=false and park/release inside RaceDisable regions, transport reads happen-after earlier writes like sockets do). Strata: 'script/pipelined' (C03 workload: 1..3 connections, up to 16 pipelined requests each on its own fid, answers from other goroutines), 'script/flushes' (C07 workload incl. Tversion at session start), 'ufs/shared-client' (2..8 goroutines sharing one client against Ufs, each on its own file, all walking from the shared root fid, reading a shared directory), 'script/connection-churn' (connections opened and dropped once their requests are answered while two others stay busy). Only race reports and crashes are judged.",
+		Real:       append(append(append([]string{}, srvReal...), "go9p client library", "go9p Ufs on a scratch tree"), "Go race detector"),
+		Stub:       srvStub,
+		ProbeNames: []string{}})
+}
